@@ -2248,3 +2248,85 @@ Proof.
   destruct (valid_input_b i); cbn [negb]; destruct (INPUT_LIMIT <? len i) eqn:E1; destruct (len i <=? INPUT_LIMIT) eqn:E2;
     destruct (0 <? len i) eqn:E3; destruct (len i =? 0) eqn:E4; cbn; try reflexivity; lia.
 Qed.
+
+(* ---- statements without the internal switch of rsv_step ------------------------------------------ *)
+Lemma run_reserved_frame : forall fuel rs sep lang b v v' b' s,
+  run fuel rs sep lang b v = (v', b', s) ->
+  forall f, f <= nonwriteable_flag_threshold ->
+    getf (v_st v') f = getf (v_st v) f \/ f = FLAG_READIN \/ f = FLAG_INMATCH \/ f = FLAG_WAIT \/ f = FLAG_DIRTY
+    \/ (f = FLAG_LOADFAIL /\ can_fail rs).
+Proof.
+  intros fuel rs sep lang b v v' b' s H f Hf.
+  destruct (run_rsv _ _ _ _ _ _ _ _ _ H f Hf) as [E|[E|[E|[E|[[_ E]|E]]]]]; auto 6.
+Qed.
+Lemma run_first_reserved_frame : forall fuel c lang e e' r s,
+  run_first fuel c lang e = (e', r, s) ->
+  forall f, f <= nonwriteable_flag_threshold ->
+    getf (v_st (e_v e')) f = getf (v_st (e_v e)) f \/ f = FLAG_READIN \/ f = FLAG_INMATCH \/ f = FLAG_WAIT \/ f = FLAG_DIRTY
+    \/ (f = FLAG_LOADFAIL /\ exists sc, c_first c = Some sc /\ existsb fr_fail sc = true).
+Proof.
+  intros fuel c lang e e' r s H f Hf.
+  destruct (run_first_rsv _ _ _ _ _ _ _ H f Hf) as [E|[E|[E|[E|[[_ E]|[E1 E2]]]]]]; auto 6.
+  do 5 right. split; [exact E1|].
+  destruct (c_first c) as [sc|].
+  - exists sc. split; [reflexivity|]. destruct (existsb fr_fail sc) eqn:Ex; [reflexivity|].
+    exfalso. exact (no_fail_first sc Ex E2).
+  - exfalso. exact (no_fail_first [] eq_refl E2).
+Qed.
+
+Lemma request_persisted_strip_app : forall a fuel c p input,
+  request_persisted fuel (app_rsrc (strip_app a)) (strip_cfg c) p input = request_persisted fuel (app_rsrc a) c p input.
+Proof. intros. apply request_persisted_strip. apply strip_rel_app. Qed.
+Lemma request_long_strip_app : forall a fuel c e input,
+  request_long fuel (app_rsrc (strip_app a)) (strip_cfg c) e input = request_long fuel (app_rsrc a) c e input.
+Proof. intros. apply request_long_strip. apply strip_rel_app. Qed.
+
+(* ======================================================================================== *)
+(* 15. corpus applications (go/cmd/vh/engine.go engineCorpus) as terms, for the witnesses     *)
+(* ======================================================================================== *)
+Definition nd (name : string) (p : list instr) : bytes * bytes := (s2b name, encode_prog p).
+Definition catch_node := nd "_catch" [IHalt; IInCmp (s2b "_") (s2b "*")].
+Definition fr (content : string) (set : list N) : fres := mkFres (s2b content) false 0 set [] false.
+Definition pw0 : pworld := mkPw None [] [] false.
+Definition store_st (p : pworld) : state := match pw_store p with Some (s, _) => s | None => new_state 0 end.
+Definition store_ca (p : pworld) : cache := match pw_store p with Some (_, c) => c | None => new_cache 0 end.
+
+(* "terminate-blocked": aa sets TERMINATE and client flag 9 *)
+Definition app_term : app :=
+  mkApp [nd "root" [IHalt; IInCmp (s2b "foo") (s2b "1")];
+         nd "foo" [ILoad (s2b "aa") 10; IHalt; IInCmp (s2b "_") (s2b "0")]; catch_node]
+        [(s2b "root", s2b "root"); (s2b "foo", s2b "foo"); (s2b "_catch", s2b "catch")]
+        [] [(s2b "aa", [fr "t" [6; 9]])].
+Definition cfg_term : config := mkCfg 0 [] 2 0 [] [] false None.
+Definition rs_term : rsrc := app_rsrc app_term.
+(* the session after the requests "" and "1": at root/foo, TERMINATE and flag 9 set *)
+Definition p_term : pworld := fst (requests 100 rs_term cfg_term pw0 [[]; s2b "1"]).
+(* the same served by an engine with an entry function / with ResetOnEmptyInput *)
+Definition cfg_term_first : config := mkCfg 0 [] 2 0 [] [] false (Some [fr "hello" []]).
+Definition cfg_term_reset : config := mkCfg 0 [] 2 0 [] [] true None.
+
+(* "graceful-end": root -1-> foo (LOAD aa, sets client flag 8) -1-> end1 (LOAD bb; HALT; no more code) *)
+Definition app_graceful : app :=
+  mkApp [nd "root" [IHalt; IInCmp (s2b "foo") (s2b "1")];
+         nd "foo" [ILoad (s2b "aa") 10; IMap (s2b "aa"); IHalt; IInCmp (s2b "end1") (s2b "1")];
+         nd "end1" [ILoad (s2b "bb") 0; IHalt]; catch_node]
+        [(s2b "root", s2b "root"); (s2b "foo", s2b "foo {{.aa}}"); (s2b "end1", s2b "the end"); (s2b "_catch", s2b "catch")]
+        [] [(s2b "aa", [fr "v" [8]]); (s2b "bb", [fr " bye" []])].
+Definition cfg_graceful : config := mkCfg 0 [] 2 100 [] [] false None.
+Definition rs_graceful : rsrc := app_rsrc app_graceful.
+(* the session after "" and "1": at root/foo, waiting for input *)
+Definition p_graceful : pworld := fst (requests 100 rs_graceful cfg_graceful pw0 [[]; s2b "1"]).
+
+(* "abnormal-end": foo's code ends without HALT *)
+Definition app_abn : app :=
+  mkApp [nd "root" [IHalt; IInCmp (s2b "foo") (s2b "1")]; nd "foo" [ILoad (s2b "aa") 10]; catch_node]
+        [(s2b "root", s2b "root"); (s2b "foo", s2b "foo"); (s2b "_catch", s2b "catch")]
+        [] [(s2b "aa", [fr "v" []])].
+Definition rs_abn : rsrc := app_rsrc app_abn.
+Definition p_abn : pworld := fst (requests 100 rs_abn cfg_term pw0 [[]]).
+
+(* "first-terminate": the entry function sets TERMINATE on its second call *)
+Definition app_ft : app :=
+  mkApp [nd "root" [IHalt; IInCmp (s2b "foo") (s2b "1")]; nd "foo" [IHalt; IInCmp (s2b "_") (s2b "0")]; catch_node]
+        [(s2b "root", s2b "root"); (s2b "foo", s2b "foo"); (s2b "_catch", s2b "catch")] [] [].
+Definition cfg_ft : config := mkCfg 0 [] 1 0 [] [] false (Some [fr "hello" []; fr "blocked" [6]; fr "again" []]).
